@@ -42,6 +42,30 @@ def handle : List String → Verdict
         -- the one deviation on record: the document / trace is exactly the denotation with unconditional announcing
         sig := "render" ++ (if hoisty && (cmp dAll "").isNone then ";cond-hoist-evaluated-unreached" else "") }
     | _, _, _, _, _ => .badOp
+  -- markup without Go expressions: the document is written out by hand in the template's `// EXPECT:<hex>` comment
+  | ["static", _astS, _envS, outH, errH, _traceS, srcH] =>
+    match hexField outH, hexField errH, hexField srcH with
+    | some out, some errMsg, some src =>
+      let tag := Bytes.ofString "// EXPECT:"
+      let keyTag := Bytes.ofString "// KEY:"
+      let rec findKey (fuel : Nat) (s : Bytes) : Bytes :=
+        match fuel, s with
+        | 0, _ => []
+        | _, [] => []
+        | fuel + 1, b :: rest => if List.isPrefixOf keyTag (b :: rest) then (((b :: rest).drop keyTag.length).takeWhile (· != 10)) else findKey fuel rest
+      let key := findKey (src.length + 1) src
+      let rec find (fuel : Nat) (s : Bytes) : Option Bytes :=
+        match fuel, s with
+        | 0, _ => none
+        | _, [] => none
+        | fuel + 1, b :: rest => if List.isPrefixOf tag (b :: rest) then some (((b :: rest).drop tag.length).takeWhile (· != 10)) else find fuel rest
+      match (find (src.length + 1) src).bind (fun h => Bytes.ofHex (str h)) with
+      | some want =>
+        { predfail := if errMsg.isEmpty && out == want then none else
+            some s!"static markup rendered as {str out} (error: {str errMsg}); the template denotes {str want}",
+          nontrivial := true, tags := ["static"], sig := if key.isEmpty then "static" else "static;" ++ str key }
+      | none => .badOp
+    | _, _, _ => .badOp
   | _ => .badOp
 
 end TemplVerif.Drive.C02
